@@ -26,6 +26,9 @@ from .values import (Control, PathInfeasible, PathCut, Inconclusive, Unsupported
 
 TRACE = bool(os.environ.get("PSX_TRACE"))
 CURRENT = [None]     # the interpreter that is executing (engine objects reach it through this)
+LAZY_GENERATORS = os.environ.get("PSX_EAGER_GENERATORS") != "1"     # generator functions run lazily (LazyGen); the eager fallback collects all yields first
+import threading as _threading
+_threading.stack_size(256 * 1024 * 1024)     # generator bodies run the (recursive) interpreter in threads of their own
 
 
 def current():
@@ -49,9 +52,10 @@ class Closure(object):
 
 
 class Frame(object):
-    __slots__ = ("locals", "globals", "parent", "localnames", "cls", "yields", "yield_cb", "name", "globalnames")
+    __slots__ = ("locals", "globals", "parent", "localnames", "cls", "yields", "yield_cb", "name", "globalnames", "lazy")
 
     def __init__(self, locals_, globals_, parent=None, localnames=None, cls=None, name="?"):
+        self.lazy = None
         self.locals = locals_
         self.globals = globals_
         self.parent = parent
@@ -61,6 +65,91 @@ class Frame(object):
         self.yield_cb = None
         self.name = name
         self.globalnames = ()
+
+
+class _GenKill(BaseException):
+    """unwinds the body of a generator that nobody will resume (its path ended)"""
+
+
+class LazyGen(object):
+    """an interpreted generator function, run lazily as CPython runs it: the body executes in a thread of its own that is handed control
+    by next() and hands it back at every yield - never two threads at once, so the interpreter's state needs no locking.  What the
+    consumer does between two next() calls is therefore visible to the rest of the body (a generator that yields the sections of a
+    document one by one while the consumer fills them in)."""
+    psx_engine = True
+
+    def __init__(self, interp, node, fr):
+        import threading
+        self.I, self.node, self.fr = interp, node, fr
+        self.state = "new"
+        self.to_gen = threading.Semaphore(0)
+        self.to_consumer = threading.Semaphore(0)
+        self.value = None
+        self.exc = None
+        self.killed = False
+        self.thread = None
+        fr.lazy = self
+        interp.live_gens.append(self)
+
+    def psx_symbolic(self):
+        return True
+
+    def __iter__(self):
+        return self
+
+    def __next__(self):
+        import threading
+        if self.state == "done":
+            raise StopIteration
+        if self.state == "running":
+            raise ValueError("generator already executing")
+        self.state = "running"
+        if self.thread is None:
+            self.thread = threading.Thread(target=self._run, daemon=True)
+            self.thread.start()
+        else:
+            self.to_gen.release()
+        self.to_consumer.acquire()
+        CURRENT[0] = self.I
+        if self.exc is not None:
+            e, self.exc = self.exc, None
+            self.state = "done"
+            raise e
+        if self.state == "done":
+            raise StopIteration
+        return self.value
+
+    next = __next__
+
+    def emit(self, v):
+        self.value = v
+        self.state = "suspended"
+        self.to_consumer.release()
+        self.to_gen.acquire()
+        if self.killed:
+            raise _GenKill()
+        return None
+
+    def _run(self):
+        try:
+            for st in self.node.body:
+                self.I.ex(st, self.fr)
+        except _Return:
+            pass
+        except _GenKill:
+            pass
+        except BaseException as e:          # program exceptions and engine signals alike: they surface in the consumer
+            self.exc = e
+        finally:
+            self.state = "done"
+            self.to_consumer.release()
+
+    def close(self):
+        if self.thread is not None and self.thread.is_alive() and self.state == "suspended":
+            self.killed = True
+            self.to_gen.release()
+            self.thread.join(5)
+        self.state = "done"
 
 
 class FuncInfo(object):
@@ -185,6 +274,7 @@ class Interp(object):
         self.deadline = None
         self.budget_exhausted = False
         self.path_hooks = []
+        self.live_gens = []          # lazily run generator functions of the current path (closed when the path ends)
         self.fresh_mode = False
         self.in_prefix = False
         self._oracle = {}
@@ -494,6 +584,9 @@ class Interp(object):
                 self.in_prefix = True
             self.pos = 0
             self.path_steps = 0
+            for g in self.live_gens:
+                g.close()
+            self.live_gens = []
             self.charges = []
             self.step_limit = None
             self._oseq = 0
@@ -1096,6 +1189,8 @@ class Interp(object):
         return self._run_body(node, fr, info.is_gen)
 
     def _run_body(self, node, fr, is_gen):
+        if is_gen and LAZY_GENERATORS:
+            return LazyGen(self, node, fr)
         if is_gen:
             fr.yields = []
         try:
@@ -1809,10 +1904,12 @@ class Interp(object):
     def ev_Yield(self, e, fr):
         v = self.ev(e.value, fr) if e.value is not None else None
         f = fr
-        while f is not None and f.yields is None and f.yield_cb is None:
+        while f is not None and f.yields is None and f.yield_cb is None and f.lazy is None:
             f = f.parent
         if f is None:
             self.unsupported("yield outside a supported generator", e)
+        if f.lazy is not None:
+            return f.lazy.emit(v)
         if f.yield_cb is not None:
             cb = f.yield_cb
             f.yield_cb = None
@@ -1823,12 +1920,15 @@ class Interp(object):
 
     def ev_YieldFrom(self, e, fr):
         f = fr
-        while f is not None and f.yields is None:
+        while f is not None and f.yields is None and f.lazy is None:
             f = f.parent
         if f is None:
             self.unsupported("yield from outside a supported generator", e)
         for v in self.iterate(self.ev(e.value, fr)):
-            f.yields.append(v)
+            if f.lazy is not None:
+                f.lazy.emit(v)
+            else:
+                f.yields.append(v)
         return None
 
     # ------------------------------------------------------------------------------------------
